@@ -328,7 +328,6 @@ package domain
 //@ ignore func (fc *fileController) prepareForGC() bool
 //@ ignore func (fc *fileController) restoreUnopened()
 //@ ignore func (fc *fileController) rejuvenate() error
-//@ ignore func fileKeyToName() string
 //@ # the delta recorded for a domain that contains the pointer's range, if there is one
 //@ func resolvePointerOffset(ptrRange telem.TimeRange, offsetDeltaMap map[telem.TimeRange]uint32) (delta uint32, ok bool)
 //@   ensures ok ==> (exists d telem.TimeRange :: __in(offsetDeltaMap, d) && d.ContainsRange(ptrRange) && delta == offsetDeltaMap[d])
@@ -336,6 +335,7 @@ package domain
 //@   modifies nothing
 //@   loop 0 invariant forall d telem.TimeRange :: __seen(d) ==> !d.ContainsRange(ptrRange)
 //@ func (db *DB) garbageCollectFile(key uint16, size int64) (err error)
+//@   pragma abstract fileKeyToName
 //@   overflow off
 //@   pragma wraps uint32 offset arithmetic wraps by design (delta = old - new, applied as old - delta)
 //@   requires db.idx != nil && db.fc != nil
@@ -354,3 +354,18 @@ package domain
 //@   loop 2 invariant forall j int :: 0 <= j && j < len(db.idx.mu.pointers) ==> db.idx.mu.pointers[j].TimeRange == old(db.idx.mu.pointers[j].TimeRange) && db.idx.mu.pointers[j].fileKey == old(db.idx.mu.pointers[j].fileKey) && db.idx.mu.pointers[j].size == old(db.idx.mu.pointers[j].size)
 //@   loop 2 invariant forall j int :: 0 <= j && j < len(db.idx.mu.pointers) && db.idx.mu.pointers[j].fileKey != key ==> db.idx.mu.pointers[j].offset == old(db.idx.mu.pointers[j].offset)
 //@   loop 2 modifies db.idx
+
+//@ # ---------------------------------------------------------------- reopening: scan of the data files 1..counter (C02)
+//@ # newWriter advances counter.domain before it creates the data file, so after a crash between
+//@ # the two the highest counter value has no file. The scan must skip such a gap: it never fails
+//@ # because a file is absent (it may fail for other I/O errors).
+//@ pure func fileKeyToName(key uint16) string
+//@ func (fc *fileController) scanUnopenedFiles() (unopened set.Set[uint16], err error)
+//@   pragma abstract fileKeyToName Value
+//@   overflow off
+//@   # file keys are uint16: the counter never passes 65535 (assumed; nothing in the code enforces it)
+//@   requires fc.counter.Value() <= 65535
+//@   ensures err != nil ==> !fs.SpecAbsent(err)
+//@   modifies nothing
+//@   loop 0 invariant 1 <= i
+//@   loop 0 modifies unopened
